@@ -177,6 +177,16 @@ class VSeq(V):
         self.elem = elem  # element type tuple
 
 
+class VArr(V):
+    """immutable sequence as (length, Array(Int -> T)): used for input sequences that are only indexed / iterated
+    (quantified invariants over arrays are far easier for the solvers than over z3 sequences)"""
+    kind = "arr"
+
+    def __init__(self, ref, elem):
+        self.ref = ref
+        self.elem = elem
+
+
 class VSet(V):
     """mutable set, content = z3 Array(elem -> Bool) in the heap under (ref,'set')."""
     kind = "set"
@@ -356,6 +366,8 @@ def sort_of_type(t) -> z3.SortRef:
         return z3.StringSort()
     if k in ("obj", "symobj"):
         return obj_sort(t[1])
+    if k == "seq":
+        return z3.SeqSort(sort_of_type(t[1] if t[1][0] != "symobj" else ("obj", t[1][1])))
     if k == "opaque" or k == "func":
         return Opaque
     raise TypeError(f"no first-order sort for type {t}")
